@@ -29,6 +29,39 @@ import) and the independent OSC decoder vf/osc.py:
 
 Every instrument carries a `tag` control and every event a unique tag, so each
 bundle of a score is attributed to exactly one expected event.
+
+Classes of behaviour added in round 7 (each was a blind spot of the workload):
+
+  histories with reads   an event object is LOOKED UP (event(key)), changed
+            and looked up / played again.  The statement's "keys resolve
+            through their chains ... explicitly given keys taking precedence"
+            holds for the keys the object defines at the moment of the
+            look-up, however they got there: the chain monitor runs 1-4 edits
+            on 35 % of its events, each by one of the mapping mutators
+            (e[k] = v, del e[k], update(dict | **kw | pairs), |=, pop,
+            pop(k, default), popitem, setdefault, clear, clear + update) or
+            by deriving a new object (copy(), copy.copy, event(e),
+            event(e, **kw), event(e | d), event(**e), type(e)(e)) which is
+            edited in turn while its source is re-checked; all decided keys are
+            looked up after every step and compared with the model of the
+            current key set (me.apply_mutation: Python's mapping semantics).
+            The play histories vary the mutator the same way, look the object
+            up before the edit and between the edit and the play, and make
+            copies by the four copying constructors.  A wrong value that is
+            right for an earlier key set of the object gets the key
+            .../value-of-earlier-key-set-returned/after-<class of mutator>.
+  Rest objects in every key   "a rest played by an event stream sends nothing"
+            (Rest help: a Rest as the value of ANY key): the timeline
+            generator puts Rest objects into every numeric column - amp, db,
+            pan, instrument controls, keys no instrument has, legato, stretch,
+            sustain, detune, harmonic, the transpositions, octave - of Pbind
+            and Pmono lines and of the left operand of Pchain, also as a
+            constant ('pan': Rest()), also ONLY there (no Rest in dur / pitch
+            source keys), and into the player's prototype event.  Such a rest
+            must be silent, keep its delta, and must not end the player or a
+            sibling of a Ppar (.../rest-is-played/rest-object-in-...).
+            Kept out: Rest objects in `delta` (Ppar and Pdur rewrite the delta
+            of the events passing through them, see AUDIT).
 """
 
 import itertools
@@ -53,6 +86,12 @@ RULE = ("seeded random cases. chain: explicit key sets over the pitch "
         "= at least one combinator or a rest; 30% of the timeline cases re-use "
         "one pattern object (Pseq([Pdur(d, x), x]), Pn(Pdur(d, x), n), "
         "Ppar(x, Pdelta(t, x)), overlapping players, play/stop/play). "
+        "chain histories (35% of the chain cases): 1-4 edits by one of 12 "
+        "mapping mutators or 7 ways of deriving a new object, all decided keys "
+        "looked up after each; play histories: 8 mutators, look-ups before / "
+        "after the edit, 4 copying constructors; timeline: Rest objects in "
+        "any numeric column (scope any / usual keys only / other keys only), "
+        "constant Rests, Rest in the prototype event. "
         "Distinct = hash of the spec. "
         "Kept out (audit 2026-09-26, each justified in AUDIT below): harmonic "
         "!= 1 with an explicit freq, db with velocity without amp, arrayed "
@@ -76,6 +115,12 @@ release of a Pmono cut by Pdur: only 'not before the cut' | statement
   silent about Pmono release; SuperCollider releases at the cut          | tolerated
 simultaneous events: order free | statement silent                      | tolerated
 node ids fresh per score, not per process | a reset starts a new server  | tolerated
+Rest object in `delta` (Pbind column) | Ppar / Pdur overwrite the delta of a
+  child's event, the Rest is gone and the event plays (as in SuperCollider's
+  Ppar); whether that child event is still "a rest" is not decided       | kept out
+played event objects: no popitem / clear without re-adding the keys | play()
+  stores server, group, msg_params, is_playing ... in the object; removing
+  those is an override-key case (kept out above)                         | kept out
 stopped player: last wake-up bounded by its next element | NRT leaves the
   pending wake-up of a stopped routine in the queue (harmless)          | bounded
 """
@@ -90,6 +135,35 @@ ASSUMPTIONS = [
     "exceptions inside scheduled players are observed through the "
     "sc3.base.clock logger",
 ]
+# monitors added in round 7 (histories with every dict method / derived
+# objects; Rest objects in every key): quick minimum, thorough = 15 x
+_NEW_MIN = {
+    'chain_history_lookups_compared': 50000,
+    'chain_history_edits_changing_a_resolved_value': 5000,
+    'chain_history_source_rechecked': 2000,
+    **{f'chain_history_after_{m}': 400 for m in (
+        'setitem', 'delitem', 'update-dict', 'update-kw', 'update-pairs',
+        'ior', 'pop', 'pop-default', 'popitem', 'setdefault', 'clear',
+        'clear-update')},
+    **{f'chain_history_after_{m}': 200 for m in (
+        'copy', 'copy.copy', 'event(e)', 'event(e,**kw)', 'event(e|d)',
+        'type(e)(e)', 'event(**e)')},
+    'play_history_lookups_compared': 5000,
+    'play_history_lookups_before_edit': 1500,
+    **{f'play_history_edit_{m}': 300 for m in (
+        'update/pop', 'setitem', 'update-kw', 'update-pairs', 'ior',
+        'setdefault', 'clear-update')},
+    **{f'play_history_copy_{m}': 200 for m in (
+        'copy', 'copy.copy', 'event(e)', 'type(e)(e)')},
+    'tl_rests_only_by_other_than_dur_or_pitch_key': 500,
+    'tl_notes_after_such_a_rest_checked': 500,
+    'tl_rests_with_rest_object_in_amplitude_key': 100,
+    'tl_rests_with_rest_object_in_control_key': 300,
+    'tl_rests_with_rest_object_in_pitch-modifier_key': 100,
+    'tl_rests_with_rest_object_in_timing-modifier_key': 100,
+    'tl_rests_with_rest_object_in_dur-or-pitch-source_key': 500,
+    'tl_rest_in_prototype_event_cases': 20,
+}
 MIN_COUNTERS = {
     'quick': {'chain_lookups_compared': 10000, 'scale_keys_compared': 3000,
               'play_s_new_checked': 5000, 'play_gate_off_checked': 2000,
@@ -107,7 +181,8 @@ MIN_COUNTERS = {
               'tl_reuse_cases_ok': 500,
               'tl_repeated_embedding_s_new_checked': 2000,
               'tl_reuse_cut-then-full': 40, 'tl_reuse_players-overlap': 40,
-              'tl_reuse_stop-replay': 40, 'tl_reuse_par-twice': 20},
+              'tl_reuse_stop-replay': 40, 'tl_reuse_par-twice': 20,
+              **{k: v for k, v in _NEW_MIN.items()}},
     'thorough': {'chain_lookups_compared': 300000, 'scale_keys_compared': 100000,
                  'play_s_new_checked': 80000, 'play_gate_off_checked': 30000,
                  'play_no_gate_checked': 30000,
@@ -126,7 +201,8 @@ MIN_COUNTERS = {
                  'tl_reuse_cases_ok': 10000,
                  'tl_repeated_embedding_s_new_checked': 40000,
                  'tl_reuse_cut-then-full': 800, 'tl_reuse_players-overlap': 800,
-                 'tl_reuse_stop-replay': 800, 'tl_reuse_par-twice': 400},
+                 'tl_reuse_stop-replay': 800, 'tl_reuse_par-twice': 400,
+                 **{k: v * 15 for k, v in _NEW_MIN.items()}},
 }
 
 
@@ -192,6 +268,71 @@ def run_shard(spec, acc):
      'timeline': run_timeline}[kind](spec, acc)
 
 
+def _chain_lookups(acc, i, e, ev, res, prev=None, ctx=None):
+    """Look up every key the statement decides for the explicit key set `ev`
+    on the real event `e` and compare with the model `res`.  prev: models of
+    the key sets the object (or the object it was derived from) had before
+    (histories): a value that is wrong now but right for one of them is a
+    stale one.  False: stop this case (raised, or a history differs)."""
+    from vf import c14_run as run
+    ctx = ctx or {}
+    hist = prev is not None
+    pitch_failed = False
+    for key, exp in run.wanted_lookups(ev, res):
+        pitch = key in ('note', 'midinote', 'freq')
+        if pitch and pitch_failed:
+            continue        # downstream of an already reported difference
+        try:
+            got = e(key)
+        except Exception as x:      # noqa
+            acc.violation(raise_key('key-chain-history' if hist else
+                                    'key-chain', x),
+                          dict(ctx, case=i, event=ev, key=key,
+                               tb=short_tb(x)))
+            return False
+        acc.count('chain_history_lookups_compared' if hist else
+                  'chain_lookups_compared')
+        try:
+            g = float(got)
+        except Exception:       # noqa
+            acc.violation(f'C14/key-chain-differs/{key}/not-a-number',
+                          dict(ctx, case=i, event=ev, got=repr(got)))
+            continue
+        if run.close(g, float(exp)):
+            continue
+        if pitch:
+            pitch_failed = True
+        if hist:
+            stale = any(run.close(g, float(getattr(p, key))) for p in prev)
+            chain = 'pitch' if pitch else 'amp' if key == 'amp' else 'dur'
+            k = ('C14/key-chain-history/' + (
+                'value-of-earlier-key-set-returned' if stale else
+                f'differs/{chain}') + '/after-' + ctx.get('mclass', 'edit'))
+            acc.violation(k, dict(ctx, case=i, event=ev, key=key, got=g,
+                                  expected=exp))
+            return False
+        elif pitch:
+            if run._pitch_class(res, ev):
+                k = run.pitch_key('key-chain-differs', key, res, ev)
+            elif res.pitch_source == 'default':
+                k = ('C14/key-chain-differs/pitch-modifiers-ignored-'
+                     'without-degree-or-note-key')
+            else:
+                k = run.pitch_key('key-chain-differs', key, res, ev)
+        else:
+            src = res.amp_source if key == 'amp' else 'dur'
+            k = f'C14/key-chain-differs/{key}/from-{src}'
+        acc.violation(k, dict(ctx, case=i, event=ev, key=key, got=g,
+                              expected=exp))
+    return True
+
+
+# mechanism class of a mutator (part of the key): the defect classes are
+# "item assignment / deletion", "another dict method" and "derived object"
+MUT_CLASS = {'setitem': 'item-assignment', 'delitem': 'item-assignment',
+             'derive': 'derived-object'}
+
+
 def run_chain(spec, acc):
     from vf import c14_gen as gen, c14_run as run, model_events as me
     from sc3.seq.event import event
@@ -200,10 +341,14 @@ def run_chain(spec, acc):
         ev = {}
         ev.update(gen.pitch_keys(rng))
         ev.update(gen.amp_keys(rng))
-        ev.update(gen.dur_keys(rng, rng.random() < 0.5))
+        offgrid = rng.random() < 0.5
+        ev.update(gen.dur_keys(rng, offgrid))
         if rng.random() < 0.1:      # a rest value somewhere: timing still counts
             k = rng.choice([k for k in ev if k != 'scale'] or ['dur'])
             ev[k] = {'rest': ev.get(k, 1.0)}
+        # 35 %: a history on the event object - look up, edit with one of the
+        # dict methods (or derive a new object), look up again ...
+        ops = gen.chain_history(rng, ev, offgrid) if rng.random() < 0.35 else []
         res = me.resolve(ev)
         scale_kind = (ev.get('scale') or {}).get('kind', 'default-scale')
         pitch_n = sum(k in ev for k in ('degree', 'mtranspose', 'gtranspose',
@@ -213,8 +358,9 @@ def run_chain(spec, acc):
         amp_n = sum(k in ev for k in ('amp', 'db', 'velocity'))
         dur_n = sum(k in ev for k in ('dur', 'stretch', 'legato', 'sustain',
                                       'delta'))
-        acc.case(h64(repr(sorted(ev.items(), key=lambda kv: kv[0]))),
-                 nontrivial=pitch_n >= 2 or amp_n >= 2 or dur_n >= 2)
+        acc.case(h64(repr((sorted(ev.items(), key=lambda kv: kv[0]), ops))),
+                 nontrivial=pitch_n >= 2 or amp_n >= 2 or dur_n >= 2
+                 or bool(ops))
         acc.count(f'chain_pitch_source_{res.pitch_source}')
         acc.count(f'chain_scale_{scale_kind}')
         try:
@@ -223,55 +369,64 @@ def run_chain(spec, acc):
             acc.violation(f'C14/event-construction-raises/{exc_key(x)}',
                           {'case': i, 'event': ev, 'tb': short_tb(x)})
             continue
-        wanted = [('delta', res.delta), ('sustain', res.sustain),
-                  ('amp', res.amp)]
-        # `note` is compared only where its unit is unambiguous (12-ET);
-        # reverse conversions (midinote/note from freq) are not in the statement
-        plain = (ev.get('scale') or {}).get('tuning') is None
-        if res.pitch_source != 'freq':
-            if 'midinote' not in ev and plain:
-                wanted.append(('note', res.note))
-            wanted.append(('midinote', res.midinote))
-        if me.num(ev.get('harmonic', 1)) == 1:
-            wanted.append(('freq', res.freq))
-        if res.rest:
-            wanted = wanted[:2]
-        pitch_failed = False
-        for key, exp in wanted:
-            pitch = key in ('note', 'midinote', 'freq')
-            if pitch and pitch_failed:
-                continue        # downstream of an already reported difference
-            try:
-                got = e(key)
-            except Exception as x:      # noqa
-                acc.violation(raise_key('key-chain', x),
-                              {'case': i, 'event': ev, 'key': key,
-                               'tb': short_tb(x)})
-                break
-            acc.count('chain_lookups_compared')
-            try:
-                g = float(got)
-            except Exception:       # noqa
-                acc.violation(f'C14/key-chain-differs/{key}/not-a-number',
-                              {'case': i, 'event': ev, 'got': repr(got)})
-                continue
-            if not run.close(g, float(exp)):
-                if pitch:
-                    pitch_failed = True
-                    if run._pitch_class(res, ev):
-                        k = run.pitch_key('key-chain-differs', key, res, ev)
-                    elif res.pitch_source == 'default':
-                        k = ('C14/key-chain-differs/pitch-modifiers-ignored-'
-                             'without-degree-or-note-key')
-                    else:
-                        k = run.pitch_key('key-chain-differs', key, res, ev)
-                else:
-                    src = res.amp_source if key == 'amp' else 'dur'
-                    k = f'C14/key-chain-differs/{key}/from-{src}'
-                acc.violation(k, {'case': i, 'event': ev, 'key': key, 'got': g,
-                                  'expected': exp})
+        if not _chain_lookups(acc, i, e, ev, res):
+            continue
         if not acc.samples and pitch_n >= 3:
             acc.sample({'case': i, 'event': ev, 'model': res.as_dict()})
+        if not ops:
+            continue
+        # ---- history: every state of the object resolves from its own keys
+        # (the first state that differs ends the history: later ones would
+        # repeat it)
+        cur, cur_res, earlier, src = ev, res, [], None
+        for n, op in enumerate(ops):
+            mclass = MUT_CLASS.get(op['m'], 'dict-method')
+            name = op['how'] if op['m'] == 'derive' else op['m']
+            ctx = {'history': ops[:n + 1], 'first_event': ev,
+                   'mclass': mclass, 'mutator': name}
+            recheck = src           # the source of the object derived last
+            src = None
+            try:
+                if op['m'] == 'derive':
+                    recheck = src = (e, cur, cur_res)
+                    e = run.derive(e, op['how'], op['set'])
+                    cur = me.apply_mutation(cur, {'m': 'update-dict',
+                                                  'set': op['set']})
+                else:
+                    run.apply_mutation(e, op)
+                    cur = me.apply_mutation(cur, op)
+            except Exception as x:      # noqa
+                acc.violation(f'C14/key-chain-history-raises/{name}/'
+                              f'{exc_key(x)}', dict(ctx, case=i,
+                                                    tb=short_tb(x)))
+                break
+            if set(e) != set(cur):
+                # harness self-check of the state model (dict semantics)
+                acc.violation('C14/key-chain-history/keys-of-the-object-differ'
+                              f'/after-{mclass}',
+                              dict(ctx, case=i, got=sorted(map(str, e)),
+                                   expected=sorted(cur)))
+                break
+            new_res = me.resolve(cur)
+            acc.count(f'chain_history_after_{name}')
+            changed = any(
+                not run.close(float(a), float(b)) for a, b in
+                ((getattr(cur_res, k), getattr(new_res, k))
+                 for k in ('delta', 'sustain', 'amp', 'midinote', 'freq')))
+            if changed:
+                acc.count('chain_history_edits_changing_a_resolved_value')
+            earlier.append(cur_res)
+            if not _chain_lookups(acc, i, e, cur, new_res, earlier, ctx):
+                break
+            if recheck is not None:
+                # the object it was derived from still resolves from its keys
+                acc.count('chain_history_source_rechecked')
+                if not _chain_lookups(acc, i, recheck[0], recheck[1],
+                                      recheck[2], [new_res],
+                                      dict(ctx, mclass='edit-of-an-object-'
+                                           'derived-from-it')):
+                    break
+            cur_res = new_res
 
 
 def run_scale(spec, acc):
@@ -344,7 +499,7 @@ def _report_raises(acc, mon, cap, i, payload):
 
 
 def run_play(spec, acc):
-    from vf import c14_gen as gen, c14_run as run
+    from vf import c14_gen as gen, c14_run as run, model_events as me
     insts, info, groups = _setup(spec, 'play')
     tags = itertools.count(1)
     for i in iter_cases(spec):
@@ -371,6 +526,52 @@ def run_play(spec, acc):
             continue
         ex = run.expect_program(prog, times, info, groups)
         bad = run.compare(ex, cap, acc, 'play', prog['offgrid'])
+        for st in prog['steps']:
+            if st.get('mut'):
+                acc.count(f"play_history_edit_{st['mut']}")
+                if st.get('peek'):
+                    acc.count('play_history_lookups_before_edit')
+                if st.get('copy_how'):
+                    acc.count(f"play_history_copy_{st['copy_how']}")
+        # look-ups between the edit and the play: the keys the object holds
+        for idx, got in cap.extra.get('peeks', []):
+            st = prog['steps'][idx]
+            res = me.resolve(st['event'])
+            for key, exp in run.wanted_lookups(st['event'], res):
+                if key not in got:
+                    continue
+                acc.count('play_history_lookups_compared')
+                try:
+                    ok = run.close(float(got[key]), float(exp))
+                except Exception:       # noqa
+                    ok = False
+                if not ok:
+                    chain = ('pitch' if key in ('midinote', 'freq') else
+                             'amp' if key == 'amp' else 'dur')
+                    # the keys the object (its source, for a copy) had at
+                    # earlier plays: a value that fits one of them is stale
+                    line = []
+                    o = st['src'] if st.get('op') == 'copy' else st['obj']
+                    for p_ in reversed(prog['steps'][:idx]):
+                        if p_.get('obj') == o:
+                            line.append(me.resolve(p_['event']))
+                            if p_.get('op') == 'copy':
+                                o = p_['src']
+                    try:
+                        if any(run.close(float(got[key]),
+                                         float(getattr(r_, key)))
+                               for r_ in line):
+                            chain = 'value-of-earlier-key-set-returned'
+                    except Exception:       # noqa
+                        pass
+                    acc.violation(
+                        'C14/play-history/lookup-after-edit-differs/'
+                        f'{chain}', {'case': i, 'step': idx, 'key': key,
+                                     'got': repr(got[key]), 'expected': exp,
+                                     'mutator': st.get('mut'),
+                                     'looked_up_before_edit': st.get('peek'),
+                                     'program': prog})
+                    break
         for k, detail in bad:
             acc.violation(k if k.startswith('C14/') else f'C14/play/{k}',
                           dict(detail, case=i, program=prog))
@@ -415,10 +616,34 @@ def run_timeline(spec, acc):
             acc.count(f"tl_special_{case['special']}")
         cap, start = run.run_timeline_case(case)
         case['expanded'] = pat
+        ex = run.expect_timeline(case, start, info, groups)
+        # diagnosis: an exception while an event was played, at the time of a
+        # rest that is a rest only by a Rest object in a key that is neither a
+        # duration nor a pitch source key (amp, pan, legato, a control ...)
+        err = cap.raised or (cap.task_errors[0][1] if cap.task_errors else None)
+        played = err is not None and ex.odd_rests \
+            and ('event.py', 'play') in tb_sites(err)
+        bad = []
+        if cap.raised is None and not cap.task_errors:
+            bad = run.compare(ex, cap, acc, 'tl', case['offgrid'])
+            # ... or such a rest sent an /s_new (the Rest sits in a key that
+            # is no control of the instrument): what else differs follows
+            played = any(k == 'rest-sent-traffic'
+                         and d.get('tag') in ex.odd_rest_tags for k, d in bad)
+        if played:
+            del case['expanded']
+            where = ('prototype-event' if case.get('proto') == 'event-rest'
+                     else 'other-than-duration-or-pitch-key')
+            acc.violation(f'C14/timeline/rest-is-played/rest-object-in-{where}',
+                          {'case': i, 'timeline_case': case,
+                           'player_ended_at': cap.elapsed,
+                           'such_rests_at': ex.odd_rests[:6],
+                           'sent': [d for k, d in bad
+                                    if k == 'rest-sent-traffic'][:2],
+                           'tb': short_tb(err) if err is not None else None})
+            continue
         if _report_raises(acc, 'timeline', cap, i, {'timeline_case': case}):
             continue
-        ex = run.expect_timeline(case, start, info, groups)
-        bad = run.compare(ex, cap, acc, 'tl', case['offgrid'])
         del case['expanded']
         if case.get('special') == 'pchain-pmono':
             acc.count(f"tl_pchain_{case['shape']}")
@@ -517,6 +742,16 @@ def run_timeline(spec, acc):
                           dict(detail, case=i, timeline_case=case))
         if not full:
             acc.count('tl_rests_silent', ex.rests)
+            for c, k in ex.rest_classes.items():
+                acc.count(f'tl_rests_with_rest_object_in_{c}_key', k)
+            if ex.odd_rests:
+                acc.count('tl_rests_only_by_other_than_dur_or_pitch_key',
+                          len(ex.odd_rests))
+                last = max(ex.odd_rests)
+                acc.count('tl_notes_after_such_a_rest_checked',
+                          sum(1 for n in ex.notes if n['time'] > last))
+            if case.get('proto') == 'event-rest':
+                acc.count('tl_rest_in_prototype_event_cases')
             for k in kinds:
                 if k == 'pdur':
                     continue
